@@ -81,11 +81,33 @@ Theorem c13_no_error_outcome :
 Proof. exact legal_no_error. Qed.
 Print Assumptions c13_no_error_outcome.
 
-(* PARTIAL (synchronous): on_trial_error does not raise when the trial's entry in _trial_to_pending_slot
-   is valid for its bracket ([slot_valid]: current rung, handed-out position, empty slot, matching trial),
-   or when the trial has no entry. That every entry the scheduler stores IS valid along every
-   next_job/on_result history is not proved here (the driver checks "no exception" on the real class). *)
-Theorem c13_no_error_outcome_sync_partial :
+(* "Without raising", synchronous Hyperband (scheduler shell: bracket manager next_job / on_result with the
+   primary-bracket advance, _suggest incl. the searcher returning no configuration, on_trial_result at the
+   rung level, on_trial_error): for EVERY event sequence the tuner protocol can issue (fresh trial ids for
+   suggest, a trial does not report beyond the level it runs to; failures of pending jobs anywhere, failures
+   and reports of non-pending trials are ignored), for every bracket configuration with positive rung
+   sizes and every promotion rule that promotes distinct trials of the completed rung, no assertion of
+   SynchronousBracket.on_result, SynchronousHyperbandBracketManager.on_result / next_job or of the
+   scheduler (_suggest "already registered as pending", on_trial_result sanity checks) is reachable.
+   Proved through the invariant SInv: every entry of _trial_to_pending_slot is a valid, distinct,
+   handed-out empty slot of a not yet completed bracket at or after the primary one. *)
+Theorem c13_no_error_outcome_sync :
+  forall promote bracket_rungs,
+    (forall rung n, (NoDup (somes (map fst rung)) -> NoDup (promote rung n)) /\
+                    forall t, In t (promote rung n) -> In (Some t) (map fst rung)) ->
+    (bracket_rungs <> [] /\
+     Forall (fun rs => exists size lvl fut, rs = (size, lvl) :: fut /\ (0 < size)%nat) bracket_rungs) ->
+    forall h, slegal_hist promote bracket_rungs (shell_init bracket_rungs) 0 h ->
+      exists st', shell_run promote bracket_rungs (shell_init bracket_rungs) h = MOk st'.
+Proof.
+  intros promote bracket_rungs H1 H2 h HL.
+  eapply (shell_run_ok promote bracket_rungs H1 H2 h); [apply SInv_init | exact HL].
+Qed.
+Print Assumptions c13_no_error_outcome_sync.
+
+(* the single step behind it: on_trial_error of a trial with a valid pending slot (which the invariant of the
+   previous theorem guarantees) or without a pending slot does not raise *)
+Theorem c13_sync_on_trial_error_total :
   forall promote st t,
     (lookup t (pending_slot st) = None -> sync_on_trial_error promote st t = SOk st) /\
     (forall bid sl b, lookup t (pending_slot st) = Some (bid, sl) -> nth_error (brackets st) bid = Some b ->
@@ -94,7 +116,7 @@ Proof.
   intros promote st t. split; [exact (sync_error_unknown promote st t)|].
   intros bid sl b. exact (sync_error_total promote st t bid sl b).
 Qed.
-Print Assumptions c13_no_error_outcome_sync_partial.
+Print Assumptions c13_sync_on_trial_error_total.
 
 (* A failed trial is never resumed (asynchronous promotion Hyperband): along every legal history in which
    on_trial_error is signalled for trials that are running, Resume of a black-listed trial is never a
@@ -149,6 +171,21 @@ Proof.
   split; [exact A|]. split; [exact B|]. intros mf Hmf. exact (limit_names mf _ Hmf).
 Qed.
 Print Assumptions c13_limit_across_polls.
+
+(* non-vacuity of the synchronous theorem: one bracket (3 slots @ 1, 1 slot @ 3); trial 1 fails while pending, the
+   others report, the rung completes without waiting, the next suggestion resumes a trial at level 3, which
+   then fails after the resume; promotion rule here: the first n trials of the rung *)
+Definition ex_promote (rung : list slot) (n : nat) : list Z := firstn n (somes (map fst rung)).
+Definition ex_rungs : list (list (nat * Z)) := [[(3%nat, 1); (1%nat, 3)]].
+Definition ex_shist := [SSuggest 0 true; SSuggest 1 true; SSuggest 2 true; SFail 1; SReport 0 1 (1 # 2); SReport 2 1 (1 # 4);
+                        SSuggest 3 true; SReport 0 2 (1 # 8); SFail 0; SSuggest 3 true].
+Example c13_sync_example :
+  slegal_hist ex_promote ex_rungs (shell_init ex_rungs) 0 ex_shist /\
+  match shell_run ex_promote ex_rungs (shell_init ex_rungs) ex_shist with
+  | MOk st => map fst (sh_pending st) = [3] /\ length (m_brackets (sh_mgr st)) = 2%nat
+  | MError _ => False
+  end.
+Proof. vm_compute. repeat split; reflexivity. Qed.
 
 (* non-vacuity: a poll with a failed trial, an externally stopped one, a scheduler-stopped one *)
 Example c13_example :
